@@ -701,6 +701,10 @@ func (tic *TermInCommittee) validateViewChangeVotes(targetBlockHeight primitives
 			return fmt.Errorf("memberId %s appears in more than one confirmation", senderMemberIdStr)
 		}
 		set[senderMemberIdStr] = true
+		// every counted vote must be signed by its sender and carry a valid prepared proof (or none)
+		if err := tic.isViewChangeValid(tic.calcLeaderMemberId(targetView), targetView, confirmation); err != nil {
+			return errors.Wrapf(err, "confirmation of memberId %s is invalid", senderMemberIdStr)
+		}
 	}
 
 	return nil
